@@ -274,7 +274,7 @@ def gen_obligations(ctx, module, path, theorems):
 _driver_ok = None
 
 
-def driver(lines, timeout=3600):
+def driver(lines, timeout=1500):
     """Send JSON lines to the compiled Lean driver, return the decoded output lines."""
     global _driver_ok
     if _driver_ok is None:
@@ -288,7 +288,12 @@ def driver(lines, timeout=3600):
         raise DriverError('driver does not build:\n' + _driver_ok[1][-3000:])
     exe = LEAN / '.lake' / 'build' / 'bin' / 'pydl_driver'
     inp = ''.join(json.dumps(l, separators=(',', ':')) + '\n' for l in lines)
-    p = subprocess.run([str(exe)], input=inp, capture_output=True, text=True, timeout=timeout)
+    try:
+        p = subprocess.run([str(exe)], input=inp, capture_output=True, text=True, timeout=timeout)
+    except subprocess.TimeoutExpired:
+        # the model side did not answer (e.g. inputs captured from a changed implementation blow the model's run time up):
+        # a broken obligation to be reported, not an internal error of the check
+        raise DriverError('driver did not answer %d lines within %d s' % (len(lines), timeout))
     if p.returncode != 0:
         raise DriverError('driver exit %d: %s' % (p.returncode, p.stderr[-2000:]))
     out = [json.loads(l) for l in p.stdout.splitlines() if l.strip()]
